@@ -55,6 +55,16 @@ func c04Gen(tier string, r *rand.Rand) []Case {
 	mk("inverse-pair", []*big.Int{a, new(big.Int).Sub(blsR, a)}, []string{"torsion", "neg-prev"})
 	mk("sum-zero-3", []*big.Int{a, b, new(big.Int).Mod(new(big.Int).Neg(new(big.Int).Add(a, b)), blsR)}, []string{"inf", "inf"})
 	mk("edge", []*big.Int{big.NewInt(1), new(big.Int).Sub(blsR, big.NewInt(1)), big.NewInt(2)}, []string{"random", "g1", "inf"})
+	// algebraic coincidences inside RemoveBLSPublicKeys(Agg(A+B), B): the aggregated key equals minus the sum
+	// of the removed keys (the subtraction is a doubling), equals that sum (result is the identity), or the
+	// removed keys sum to the identity
+	negm := func(x *big.Int, m int64) *big.Int { return new(big.Int).Mod(new(big.Int).Neg(new(big.Int).Mul(x, big.NewInt(m))), blsR) }
+	mk("remove-doubling", []*big.Int{negm(b, 2), b}, []string{"g1"})
+	mk("remove-doubling", []*big.Int{negm(big.NewInt(1), 2), big.NewInt(1)}, []string{"g1"})
+	ab := new(big.Int).Mod(new(big.Int).Add(a, b), blsR)
+	mk("remove-doubling-many", []*big.Int{negm(ab, 2), a, b}, []string{"g1"})
+	mk("remove-to-identity", []*big.Int{negm(a, 1), a, b}, []string{"g1"})
+	mk("remove-cancelling-set", []*big.Int{b, a, negm(a, 1)}, []string{"g1"})
 	for i := 0; i < reps; i++ {
 		n := 1 + r.IntN(maxN)
 		var ks []*big.Int
@@ -144,10 +154,16 @@ func c04Run(c Case) (Result, error) {
 		if !n1.Equals(aggSk) || !n2.Equals(aggPk) || !bytes.Equal(n3, aggSig) {
 			fail("nested aggregation differs from flat aggregation")
 		}
-		// Remove(Agg(A+B), B) = Agg(A)
-		rem, err := crypto.RemoveBLSPublicKeys(aggPk, pks[cut:])
-		if err != nil || !rem.Equals(p1) || !bytes.Equal(rem.Encode(), p1.Encode()) {
-			fail("Remove(Agg(A+B),B) != Agg(A)")
+		// Remove(Agg(A+B), B) = Agg(A), for the random cut and for every cut position
+		for c2 := 1; c2 < len(pks); c2++ {
+			if c2 != cut && len(pks) > 6 {
+				continue
+			}
+			pa, _ := crypto.AggregateBLSPublicKeys(pks[:c2])
+			rem, err := crypto.RemoveBLSPublicKeys(aggPk, pks[c2:])
+			if err != nil || !rem.Equals(pa) || !bytes.Equal(rem.Encode(), pa.Encode()) {
+				fail(fmt.Sprintf("Remove(Agg(A+B),B) != Agg(A) at cut %d", c2))
+			}
 		}
 	}
 	same, err := crypto.RemoveBLSPublicKeys(aggPk, nil)
